@@ -569,3 +569,36 @@ def _(w):
 def _(w):
     from adcgen import Intermediates
     return Intermediates().available["t2_1"].expand_itmd("abij")
+
+
+# rejected half-way: valid names precede the offending one inside one index request
+@bad("bad.gs.amplitude(1,pphh,kl,cd)", "mp")
+def _(w): return w.call(w.gs("mp", False), "amplitude", 1, "pphh", "kl,cd")
+
+
+@bad("bad.gs.amplitude(2,ph,j4x)", "mp")
+def _(w): return w.call(w.gs("mp", False), "amplitude", 2, "ph", "j4x")
+
+
+@bad("bad.get_symbols(ijab?)", "expr")
+def _(w):
+    from adcgen import get_symbols
+    return get_symbols("ijab?")
+
+
+@bad("bad.get_symbols(m5e5z)", "expr")
+def _(w):
+    from adcgen import get_symbols
+    return get_symbols("m5e5z")
+
+
+@bad("bad.get_symbols(cdkl,spins=abx)", "expr")
+def _(w):
+    from adcgen import get_symbols
+    return get_symbols("cdkl", "abxa")
+
+
+@bad("bad.itmd.t2_1.expand_itmd(kl;cd)", "itmd")
+def _(w):
+    from adcgen import Intermediates
+    return Intermediates().available["t2_1"].expand_itmd("kl;cd")
